@@ -534,3 +534,22 @@ def _tracker_run(pm, v):
         post, dup = _project(d.get_aircraft())
         steps.append({"post": post, "dup": dup, "exc": exc})
     return {"t": "steps", "v": steps}
+
+
+# ---- C19: the software demodulator, no hardware ----
+@reg("demod")
+def _demod(pm, v):
+    import sys
+    import types
+    if "rtlsdr" not in sys.modules:
+        sys.modules["rtlsdr"] = types.ModuleType("rtlsdr")      # the import is optional in rtlreader (prints a warning)
+    import contextlib
+    import io
+    with contextlib.redirect_stdout(io.StringIO()):
+        from pyModeS.extra.rtlreader import RtlReader
+    r = object.__new__(RtlReader)
+    r.signal_buffer = [x / 1000.0 for x in v["sig"]]
+    r.noise_floor = 1e6
+    r.debug = False
+    out = r._process_buffer()
+    return {"t": "frames", "v": [enc.text(m[0]) for m in out]}
